@@ -96,7 +96,11 @@ func c15Load(mainPath, personalPath string, cfg c15Config) (out c15Outcome) {
 	for _, c := range db.Commands {
 		out.Commands = append(out.Commands, [2]string{c.Command, c.Description})
 	}
-	// searchable: a search for a word of one of its own commands finds something
+	// searchable: any database that is handed back - an empty one too - answers a search
+	for _, nlpOn := range []bool{false, true} {
+		db.SearchUniversal("list files", database.SearchOptions{Limit: 5, UseNLP: nlpOn, UseFuzzy: true})
+	}
+	// ... and a search for a word of one of its own commands finds something
 	for _, c := range db.Commands {
 		for _, tok := range gen.Tokens([]database.Command{c}) {
 			if len(db.SearchUniversal(tok, database.SearchOptions{Limit: len(db.Commands) + 1, AllPlatforms: true})) > 0 {
@@ -187,7 +191,7 @@ func c15Judge(mainF, persF, backF string, cfg c15Config, out c15Outcome) string 
 		persF = "good"
 	}
 	if out.Panic != "" {
-		return "loading crashed or hung: " + out.Panic + " (" + where + ")"
+		return "loading (or searching what it returned) crashed or hung: " + out.Panic + " (" + where + ")"
 	}
 	if out.DBNil || out.Err != "" {
 		return fmt.Sprintf("loading ended with db=nil:%v err=%q; a usable database and no error are required (%s)", out.DBNil, out.Err, where)
